@@ -9,8 +9,9 @@
    tables REGENERATED from /repo (Gen/TemplateGen.v).
 
    `guarded s h`: along the history, at every step (1) sharing_visible: two record rows that name one location
-   carry the same text or are fragment paths of one artifact text, (2) the step is not an ingest of a dataset
-   the datastore already holds, (3) the location the step writes is inside the root, (4) every relative record
+   carry the same text or are fragment paths of one artifact text, [(2) "the step is not an ingest of a dataset the
+   datastore already holds" -- DISCHARGED since 2da36a1: the code refuses it before any transfer,
+   ingest_refused_changes_nothing], (3) the location the step writes is inside the root, (4) every relative record
    path names a location inside the root.  Guards (1) and (2) are NECESSARY on the code as it is: see the
    delete_refuted_* theorems (reproduced on the real Butler; known findings).  Since df0ecd0 the check that makes
    (3) true for put / ingest is part of the code (unchecked_*_refused, writes_inside_root_partial). *)
@@ -33,7 +34,7 @@ Print Assumptions delete_only_unreferenced.
 
 (* one step, any state (the induction step of MAIN 1) *)
 Theorem step_deletes_unreferenced : forall s x l c,
-  sharing_visible s = true -> reingest s x = false -> target_inside x = true -> put_coherent x = true ->
+  sharing_visible s = true -> target_inside x = true -> put_coherent x = true ->
   live_trash_disjoint s = true ->
   touches_env s x l = false ->
   fget (fs s) l = Some c -> fget (fs (fst (step s x))) l = None ->
@@ -112,9 +113,10 @@ Print Assumptions direct_never_deleted.
 
 (* the model's `step` is the code of the working tree: FileDatastore builds the location of a new artifact with
    trusted_path=False at both sites (GEN_LOCATION_CHECKED, df0ecd0) and StoredFileInfo.file_location builds the location of a
-   relative RECORD path with trusted_path=False (GEN_RECORD_CHECKED, 5539e78); both flags are regenerated from
-   fileDatastore.py / stored_file_info.py / _location.py on every run; reverting either commit makes this theorem fail *)
-Theorem model_is_the_code : step_v GEN_LOCATION_CHECKED GEN_RECORD_CHECKED = step.
+   relative RECORD path with trusted_path=False (GEN_RECORD_CHECKED, 5539e78); and _finishIngest / ingest_zip refuse a
+   dataset the datastore already holds BEFORE any transfer (GEN_INGEST_CHECKED, 2da36a1); the three flags are regenerated from
+   fileDatastore.py / stored_file_info.py / _location.py on every run; reverting any of the commits makes this theorem fail *)
+Theorem model_is_the_code : step_v GEN_LOCATION_CHECKED GEN_RECORD_CHECKED GEN_INGEST_CHECKED = step.
 Proof. reflexivity. Qed.
 Print Assumptions model_is_the_code.
 
@@ -243,21 +245,21 @@ Print Assumptions containment_refuted_without_fix.
 
 Theorem outside_put_refuted_without_fix :
   exists run s', fget (fs st0) sent0 = Some 2%N
-    /\ step_v false false st0 (Put 1 (fmt run) ".yaml" 9) = (s', Refused RuntimeErr)
+    /\ step_v false false false st0 (Put 1 (fmt run) ".yaml" 9) = (s', Refused RuntimeErr)
     /\ fget (fs s') sent0 = None /\ inside sent0 = false.
 Proof. exact outside_put_refuted_without_fix_p. Qed.
 Print Assumptions outside_put_refuted_without_fix.
 
 Theorem outside_ingest_refuted_without_fix :
   exists run s1,
-    step_v false false st0 (Ingest Copy [1%N] (fmt run) ".yaml" stage0) = (s1, Done)
+    step_v false false false st0 (Ingest Copy [1%N] (fmt run) ".yaml" stage0) = (s1, Done)
     /\ fget (fs st0) sent0 = Some 2%N /\ fget (fs s1) sent0 = Some 1%N
     /\ recs_inside s1 = false
-    /\ fget (fs (fst (step_v false false s1 (Prune [1%N])))) sent0 = None.
+    /\ fget (fs (fst (step_v false false false s1 (Prune [1%N])))) sent0 = None.
 Proof. exact outside_ingest_refuted_without_fix_p. Qed.
 Print Assumptions outside_ingest_refuted_without_fix.
 
-(* ---- the guards of MAIN 1 are necessary (FINDINGS, reproduced) ---------------------------------------------------- *)
+(* ---- guard (1) of MAIN 1 is necessary (FINDING, reproduced); (2) was until 2da36a1 ---------------------------------------------------- *)
 Theorem delete_refuted_alias :
   exists s l c,
     s = run st0 [Put 1 (fmt "aJb") ".yaml" 5; Ingest Copy [2%N] (fmt "a%4ab") ".yaml" stage0]
@@ -267,23 +269,47 @@ Theorem delete_refuted_alias :
 Proof. exact alias_refuted_p. Qed.
 Print Assumptions delete_refuted_alias.
 
-Theorem delete_refuted_reingest :
+(* REPAIRED findings F-C09-reingest / F-C09-zip-reingest (2da36a1).  Before it (step_noichk = step_v true true false) the target
+   was overwritten first and the rollback of the refused record insert removed the artifact of the dataset that is still stored *)
+Theorem delete_refuted_reingest_without_fix :
   exists s x l c,
     s = run st0 [Ingest Copy [1%N] (fmt "r1") ".yaml" stage0]
-    /\ reingest s x = true /\ snd (step s x) = Refused Conflict
-    /\ fget (fs s) l = Some c /\ fget (fs (fst (step s x))) l = None /\ referenced (fst (step s x)) l = true.
+    /\ reingest s x = true /\ snd (step_noichk s x) = Refused Conflict
+    /\ fget (fs s) l = Some c /\ fget (fs (fst (step_noichk s x))) l = None /\ referenced (fst (step_noichk s x)) l = true.
 Proof. exact reingest_refuted_p. Qed.
-Print Assumptions delete_refuted_reingest.
+Print Assumptions delete_refuted_reingest_without_fix.
 
-Theorem delete_refuted_zip_reingest :
+Theorem delete_refuted_zip_reingest_without_fix :
   exists s x l c,
     s = run st0 [IngestZip [(1%N, "m1"); (2%N, "m2")] "zips/ab/z.zip" 7]
-    /\ reingest s x = true /\ snd (step s x) = Refused Conflict
-    /\ fget (fs s) l = Some c /\ fget (fs (fst (step s x))) l = None /\ referenced (fst (step s x)) l = true.
+    /\ reingest s x = true /\ snd (step_noichk s x) = Refused Conflict
+    /\ fget (fs s) l = Some c /\ fget (fs (fst (step_noichk s x))) l = None /\ referenced (fst (step_noichk s x)) l = true.
 Proof. exact zip_reingest_refuted_p. Qed.
-Print Assumptions delete_refuted_zip_reingest.
+Print Assumptions delete_refuted_zip_reingest_without_fix.
 
-(* REPAIRED finding F-C09-nested-escape (5539e78).  Before it (step_nofix = step_v true false: df0ecd0 in, record paths not
+(* with 2da36a1, for EVERY state and EVERY ingest (copy / move, any ids, any template result, any source): an ingest that is
+   not carried out changes NOTHING -- no file inside or outside, no record, the source of a move stays.  Guard clause (2) of
+   `guarded` ("no ingest of a dataset already held") is thereby discharged: MAIN 1 no longer carries it. *)
+Theorem ingest_refused_changes_nothing : forall s m ids fr ext src,
+  snd (step s (Ingest m ids fr ext src)) <> Done -> fst (step s (Ingest m ids fr ext src)) = s.
+Proof. exact ingest_refused_changes_nothing_p. Qed.
+Print Assumptions ingest_refused_changes_nothing.
+
+Theorem zip_refused_changes_nothing : forall s members z c,
+  snd (step s (IngestZip members z c)) <> Done -> fst (step s (IngestZip members z c)) = s.
+Proof. exact zip_refused_changes_nothing_p. Qed.
+Print Assumptions zip_refused_changes_nothing.
+
+Theorem reingest_refused_now :
+  let s := run st0 [Ingest Copy [1%N] (fmt "r1") ".yaml" stage0] in
+  let z := run st0 [IngestZip [(1%N, "m1"); (2%N, "m2")] "zips/ab/z.zip" 7] in
+    step s (Ingest Copy [1%N] (fmt "r1") ".yaml" stage0) = (s, Refused Conflict)
+    /\ step s (Ingest Move [1%N] (fmt "r1") ".yaml" stage0) = (s, Refused Conflict)
+    /\ step z (IngestZip [(1%N, "m1"); (2%N, "m2")] "zips/ab/z.zip" 7) = (z, Refused Conflict).
+Proof. exact reingest_refused_now_p. Qed.
+Print Assumptions reingest_refused_now.
+
+(* REPAIRED finding F-C09-nested-escape (5539e78).  Before it (step_nofix = step_v true false true: df0ecd0 in, record paths not
    checked at use time) ingest(copy) into a run that encodes ".." THREE times was accepted -- the written location is inside
    the root -- the record it leaves names a location OUTSIDE the root, and pruning the dataset deleted the foreign file there *)
 Theorem foreign_refuted_nested_escape_without_fix :
